@@ -45,6 +45,25 @@ def fn_code_hash(fn: Callable, salt: str = None, environment: bytes = None) -> s
 
     """
 
+    def stable_repr(o):
+        """
+        repr() of a constant, except that (frozen)sets - whose repr() lists the elements in
+        hash order, which differs between processes under hash randomisation - list their
+        elements in sorted order.
+
+        """
+        if isinstance(o, (frozenset, set)):
+            return "{}({{{}}})".format(
+                type(o).__name__, ", ".join(sorted(stable_repr(x) for x in o))
+            )
+        if isinstance(o, tuple) and any(
+            isinstance(x, (frozenset, set, tuple)) for x in o
+        ):
+            return "({}{})".format(
+                ", ".join(stable_repr(x) for x in o), "," if len(o) == 1 else ""
+            )
+        return repr(o)
+
     def hash_if_code_object(o):
         """
         If the parameter is a code object, return a hash, else return the object.
@@ -77,7 +96,7 @@ def fn_code_hash(fn: Callable, salt: str = None, environment: bytes = None) -> s
             sha256.update(json.dumps(attr_values, sort_keys=True).encode("utf-8"))
             return sha256.hexdigest()[0:16]
         else:
-            return repr(o)
+            return stable_repr(o)
 
     if isinstance(fn, MementoFunctionType):
         memento_fn = fn  # type: MementoFunctionType
